@@ -17,6 +17,9 @@ class Repo:
         self._mods = {}
 
     def path(self, mod):
+        if mod.startswith("lemma_"):
+            # lemma functions over contracts live with the verification machinery, not in the repository
+            return os.path.join(os.path.dirname(os.path.dirname(os.path.abspath(__file__))), "lemmas", mod + ".py")
         return os.path.join(self.src, "waitress", mod + ".py")
 
     def text(self, mod):
